@@ -388,6 +388,17 @@ func (ex *Explorer) merge(res *HarnessResult, pr *PathResult) {
 	case "infeasible":
 	default:
 		msg := pr.End.kind + ": " + pr.End.msg
+		if pr.End.kind == "engine-bug" {
+			// keep the interpreted location, drop the Go stack (dedupes across paths)
+			parts := strings.SplitN(msg, "\npanic(", 2)
+			msg = parts[0]
+			if len(res.Inconclusive) == 0 && len(parts) > 1 {
+				msg += "\n" + parts[1]
+			}
+		}
+		if len(msg) > 1500 {
+			msg = msg[:1500] + "..."
+		}
 		if len(res.Inconclusive) < 20 && !contains(res.Inconclusive, msg) {
 			res.Inconclusive = append(res.Inconclusive, msg)
 		}
